@@ -2,6 +2,7 @@ package checks
 
 import (
 	"fmt"
+	"regexp"
 	"strings"
 )
 
@@ -107,6 +108,17 @@ func c12Cases(tier string) []Case {
 	ex("huge-denominator", send("[USD 10]", "@world", "{ 1/9223372036854775808 to @a 9223372036854775807/9223372036854775808 to @b }"), "", "", "")
 	ex("huge-denominator", "set_tx_meta(\"p\", 3/36893488147419103232)", "", "", "")
 	ex("huge-numbers", "vars {\n number $n\n number $m\n}\nset_tx_meta(\"k\", $n + $m - $n)", "n=num;m=num", "", "")
+	// (c') every ill-typed script of C17's edit list, run as it is (values of the declared types):
+	// whatever the checker says about it, the run returns a result or a typed error, never a panic
+	declRe := regexp.MustCompile(`(?m)^\s*(number|monetary|account|asset|portion|string) \$(\w+)\s*$`)
+	kindOf := map[string]string{"number": "num", "monetary": "mon:USD", "account": "acc:a", "asset": "asset:USD", "portion": "portion:1/3", "string": "str:text"}
+	for _, t := range brokenTemplates {
+		var spec []string
+		for _, m := range declRe.FindAllStringSubmatch(t, -1) {
+			spec = append(spec, m[2]+"="+kindOf[m[1]])
+		}
+		ex("ill-typed-script", t, strings.Join(spec, ";"), "", "*")
+	}
 	// (d) store faults at every call
 	two := c10Case("meta-origin x2", []string{`account $x = meta(@a, "k")`, `account $y = meta(@b, "k")`}, []string{send("%N", "{ $x $y }", "@d")}, nil, "a.k=b,b.k=a", "")
 	cases = append(cases, Case{ID: "C12 store-fault " + two.ID[4:], Pkg: "", Fn: "ZZC12Fault", Args: two.Args, Tag: "store-fault"})
